@@ -11,7 +11,7 @@ from .c14 import mk
 EXPLANATION = (
     "BOUNDED catalogue, oracle = the clauses of the statement checked on the OUTPUT (no second implementation of the wrapping): "
     "linesplit (and FmtStr.__getitem__, shared_atts, fmtstr ... whatever it calls) is abstractly interpreted for every text of up "
-    "to 5 symbols over {a, b, space, tab} (thorough: 7; plus newline; longer ones thinned out deterministically), given as a str and as two FmtStr run layouts whose "
+    "to 5 symbols over {a, b, space, tab} (thorough: 6; plus newline and U+3000; longer ones thinned out deterministically), given as a str and as two FmtStr run layouts whose "
     "formatting changes inside words and inside whitespace runs (and a uniformly formatted layout with an empty run inside a gap), a set of longer hand-written texts, and every columns in 1..6 "
     "and 9 (quick: 1, 2, 3, 5, 9).  Checked on each result: it is a list of FmtStr; no line is longer than `columns`; no line is empty, starts or ends "
     "with whitespace; the non-whitespace characters of all lines, in order, are exactly those of the text with their formatting; "
@@ -65,14 +65,14 @@ def check(src, rep):
     rep.trusted_base = ["CPython ast", "sa/consteval.py", "sa/absint.py", "sa/objinterp.py"]
     it = new_interp(src, check_views=True)
     f = src.func("formatstring", "linesplit")
-    maxlen = 7 if rep.tier == "thorough" else 5
+    maxlen = 6 if rep.tier == "thorough" else 5
     alphabet = "ab \t" + ("\n\u3000" if rep.tier == "thorough" else "")
     texts = [""]
     for n in range(1, maxlen + 1):
         for tup in itertools.product(alphabet, repeat=n):
             t = "".join(tup)
             # thin out: texts are interesting through their word / gap structure
-            if n > (3 if rep.tier == "quick" else 4) and sum(ord(c) * (i + 3) for i, c in enumerate(t)) % (5 if rep.tier == "quick" else 3):
+            if n > (3 if rep.tier == "quick" else 4) and sum(ord(c) * (i + 3) for i, c in enumerate(t)) % (5 if rep.tier == "quick" else 7):
                 continue
             texts.append(t)
     texts += [" home    is where the heart-eating mummy is", "aaaa bbbbbbbbbbbbbbb c", "  ", "\t", "a", "abcdefghijkl", "ab  cd\tef \t gh",
